@@ -23,6 +23,17 @@ func init() { Registry["C01"] = c01 }
 //	strip the port with LastIndexByte(':')             → R-C01-6
 //	dispatch when GetHandler's ok is false             → R-C01-5
 //	rewrite after Handle                               → R-C01-5
+//
+// Robustness pass (behaviour-preserving refactorings the rules see through; muxsearch.go has the
+// machinery): search and serveHTTP are resolved by role from mux.ServeHTTP and analysed with their
+// same-package helpers interpreted in place (tail / cached branch / rule walk / path walk extracted,
+// serveHTTP split into dispatch + fetch + handle, rt.failed() instead of a comparison); loops may be
+// range or counting loops with element locals; "inside the loop" is a dynamic event (break + return
+// after the loop is accepted, falling out of the loop is not); routes, flags and paths may travel
+// through locals, parameters, named results and a scratch struct; types and fields are resolved by
+// their types / the spec field they are initialised from. Mutants re-tried on the refactored forms:
+// 405 before 400 in the extracted tail → R-C01-4; method flag set on a path mismatch in the
+// extracted path walk → R-C01-4; failed() inverted → R-C01-5; last match wins → R-C01-1.
 func c01(c *core.Ctx) string {
 	c.Rule("R-C01-1", "success-return gate: every (uncached) return of a success route for path p is reached only with host-match, path-match, method-match true and (p has no header conditions or header-match true), all established in the current iteration")
 	c.Rule("R-C01-2", "first match: the search ranges over rules then paths in index order; loop variables are not reassigned; no goto / goroutine; the success return is inside the inner loop")
@@ -51,77 +62,24 @@ const (
 	evMethMis = "ev:saw-method-mismatch"
 )
 
-// successReturn reports whether ret returns a success route for the current inner-loop path.
-func (s *searchInfo) successReturn(ret *ast.ReturnStmt) bool {
-	if ret == nil || len(ret.Results) != 1 {
-		return false
-	}
-	fake := &ast.CallExpr{Args: []ast.Expr{nil, ret.Results[0]}}
-	return s.putValueKind(fake) == "path"
-}
+// successReturn reports whether the exit returns a success route for the current inner-loop path.
+func (s *searchInfo) successReturn(ex *flow.Exit) bool { return s.exitKind(ex) == "path" }
 
 // returnedCode resolves the status code of a returned failure route ("" if unknown).
 func (s *searchInfo) returnedCode(ex *flow.Exit) string {
-	if ex.Return == nil || len(ex.Return.Results) != 1 {
+	k := s.exitKind(ex)
+	if k == "path" || k == "cached" {
 		return ""
 	}
-	f := s.f
-	e := ast.Unparen(ex.Return.Results[0])
-	id, ok := e.(*ast.Ident)
-	if !ok {
-		return ""
-	}
-	obj := f.Info.Uses[id]
-	if code, ok := s.routeCodes[obj]; ok {
-		return code
-	}
-	// local variable known to equal one of the route variables
-	for g, code := range s.routeCodes {
-		if ex.State.Is("eq:"+f.Render(id)+"==@"+g.Pkg().Path()+"."+g.Name(), flow.True) {
-			return code
-		}
-	}
-	return ""
+	return k
 }
 
 func c01Search(c *core.Ctx, s *searchInfo) {
 	f := s.f
-
-	// re-run the engine with the sticky mismatch events added on top of the shared hooks
-	// (cheap: the function is small). We reuse s.res for the success gate and run a
-	// second analysis for the table.
-	res := analyze(c, f, flow.Config{
-		NoHavoc: true,
-		AfterAssume: func(st *flow.State, cond ast.Expr, outcome bool) {
-			if s.getVar != nil && st.Get(evHit) == flow.Unknown {
-				ast.Inspect(cond, func(n ast.Node) bool {
-					if id, ok := n.(*ast.Ident); ok && f.Info.Uses[id] == s.getVar {
-						switch st.Get(f.NilKey(id)) {
-						case flow.True:
-							st.Set(evHit, flow.False)
-						case flow.False:
-							st.Set(evHit, flow.True)
-						}
-					}
-					return true
-				})
-			}
-			pm, mm, hm := s.val(st, s.pathMatch), s.val(st, s.methodMatch), s.val(st, s.headerMatch)
-			host := s.val(st, s.hostMatch)
-			if host == flow.False {
-				return
-			}
-			if pm == flow.True && mm == flow.False {
-				st.Set(evMethMis, flow.True)
-			}
-			noHeaders := s.lenHeaders != "" && st.Is(s.lenHeaders, flow.True)
-			if pm == flow.True && mm == flow.True && hm == flow.False && !noHeaders {
-				st.Set(evHdrMis, flow.True)
-			}
-		},
-	})
-	if res == nil {
-		return
+	res := s.res
+	inl := ""
+	if len(res.Inlined) > 0 {
+		inl = sprintf(" (helpers interpreted in place: %d)", len(res.Inlined))
 	}
 
 	// ---- R-C01-1 / R-C01-3: exits inside the loops
@@ -134,82 +92,76 @@ func c01Search(c *core.Ctx, s *searchInfo) {
 			continue
 		}
 		st := ex.State
-		if s.successReturn(ex.Return) {
+		if s.successReturn(ex) {
 			success++
-			if !contains(s.inner, ex.Return) {
-				bad, why, badAt = st, "a success route is returned outside the loop over the rule's paths (not the first matching entry)", ex.Return
+			if !s.inner.current(st) || !s.outer.current(st) {
+				bad, why, badAt = st, "a success route is returned outside the loop over the rule's paths (not the first matching entry)", ex.Ret()
 				continue
 			}
 			switch {
 			case s.val(st, s.hostMatch) != flow.True:
-				bad, why, badAt = st, "success route returned without the rule's host having matched", ex.Return
+				bad, why, badAt = st, "success route returned without the rule's host having matched", ex.Ret()
 			case s.val(st, s.pathMatch) != flow.True:
-				bad, why, badAt = st, "success route returned without the path having matched", ex.Return
+				bad, why, badAt = st, "success route returned without the path having matched", ex.Ret()
 			case s.val(st, s.methodMatch) != flow.True:
-				bad, why, badAt = st, "success route returned without the method having matched", ex.Return
-			case !(s.lenHeaders != "" && st.Is(s.lenHeaders, flow.True)) && s.val(st, s.headerMatch) != flow.True:
-				bad, why, badAt = st, "success route returned for an entry with header conditions without the headers having matched", ex.Return
+				bad, why, badAt = st, "success route returned without the method having matched", ex.Ret()
+			case !s.noHeaders(st) && s.val(st, s.headerMatch) != flow.True:
+				bad, why, badAt = st, "success route returned for an entry with header conditions without the headers having matched", ex.Ret()
 			}
 			continue
 		}
-		if contains(s.outer, ex.Return) {
+		if s.outer.current(st) {
 			inLoopOther++
 			if code := s.returnedCode(ex); code != "403" {
-				c.Violate("R-C01-3", s.cons+"|in-loop returns", pos(c, ex.Return),
+				c.Violate("R-C01-3", s.cons+"|in-loop returns", pos(c, ex.Ret()),
 					"inside the search loops something other than a success route or the 403 route is returned (status "+code+"): a mismatching entry ends the search although a later entry may match", witness(st)...)
 				inLoopOther = -1000
+				break
 			}
 		}
 	}
 	c.RequireCount("R-C01-1", "success-route exits of search", success, 1)
 	c.Check(bad == nil, "R-C01-1", s.cons+"|success return gate", pos(c, badAt),
-		sprintf("%d success exits, all with host, path, method and header conditions established in the current iteration", success), why, witness(bad)...)
+		sprintf("%d success exits, all with host, path, method and header conditions established in the current iteration%s", success, inl), why, witness(bad)...)
 	if inLoopOther >= 0 {
-		c.Discharge("R-C01-3", s.cons+"|in-loop returns", pos(c, s.outer), sprintf("%d in-loop failure exits, all 403", inLoopOther))
+		c.Discharge("R-C01-3", s.cons+"|in-loop returns", pos(c, s.outer.stmt), sprintf("%d in-loop failure exits, all 403", inLoopOther))
 	}
 
 	// ---- R-C01-2: loop shape
 	shapeOK := true
 	shapeWhy := ""
-	var hostObj, pathObj types.Object
-	if id, ok := s.outer.Value.(*ast.Ident); ok && s.outer.Tok == token.DEFINE {
-		hostObj = f.Info.Defs[id]
+	if !s.outer.ordered || !s.inner.ordered {
+		shapeOK, shapeWhy = false, "a search loop does not visit the elements in index order from the first one (for i := 0; i < len(xs); i++ / range)"
 	}
-	if id, ok := s.inner.Value.(*ast.Ident); ok && s.inner.Tok == token.DEFINE {
-		pathObj = f.Info.Defs[id]
-	}
-	if hostObj == nil || pathObj == nil {
-		shapeOK, shapeWhy = false, "the loops do not bind fresh value variables"
-	}
-	// the inner loop must range over the outer loop variable's paths
-	if sel, ok := ast.Unparen(s.inner.X).(*ast.SelectorExpr); ok {
-		if id, ok := ast.Unparen(sel.X).(*ast.Ident); !ok || f.Info.Uses[id] != hostObj {
-			shapeOK, shapeWhy = false, "the inner loop does not range over the current rule's paths"
+	for _, l := range []*muxLoop{s.outer, s.inner} {
+		if len(l.elems) == 0 && l.idx == nil {
+			shapeOK, shapeWhy = false, "the loops do not bind the current element"
+		}
+		for o := range l.elems {
+			if len(s.vf.defs[o]) != 1 {
+				shapeOK, shapeWhy = false, "a loop variable is reassigned ("+o.Name()+")"
+			}
 		}
 	}
-	ast.Inspect(f.Body, func(n ast.Node) bool {
-		switch x := n.(type) {
-		case *ast.AssignStmt:
-			for _, l := range x.Lhs {
-				if id, ok := l.(*ast.Ident); ok && (f.Info.Uses[id] == hostObj || f.Info.Uses[id] == pathObj) && hostObj != nil {
-					shapeOK, shapeWhy = false, "a loop variable is reassigned at "+pos(c, x)
+	for _, g := range s.fns {
+		ast.Inspect(g.Body, func(n ast.Node) bool {
+			switch x := n.(type) {
+			case *ast.BranchStmt:
+				if x.Tok == token.GOTO {
+					shapeOK, shapeWhy = false, "goto at "+pos(c, x)
+				}
+			case *ast.GoStmt:
+				shapeOK, shapeWhy = false, "goroutine started in search at "+pos(c, x)
+			case *ast.CallExpr:
+				full := calleeFull(g, x)
+				if len(full) > 5 && (full[:5] == "sort." || full == "slices.Reverse" || full == "slices.Sort" || full == "slices.SortFunc") {
+					shapeOK, shapeWhy = false, "the rule/path order is changed by "+full
 				}
 			}
-		case *ast.BranchStmt:
-			if x.Tok == token.GOTO {
-				shapeOK, shapeWhy = false, "goto at "+pos(c, x)
-			}
-		case *ast.GoStmt:
-			shapeOK, shapeWhy = false, "goroutine started in search at "+pos(c, x)
-		case *ast.CallExpr:
-			full := calleeFull(f, x)
-			if len(full) > 5 && (full[:5] == "sort." || full == "slices.Reverse" || full == "slices.Sort" || full == "slices.SortFunc") {
-				shapeOK, shapeWhy = false, "the rule/path order is changed by "+full
-			}
-		}
-		return true
-	})
-	c.Check(shapeOK, "R-C01-2", s.cons+"|loop order", pos(c, s.outer), "range over mi.rules then host.paths in index order, loop variables untouched", shapeWhy)
+			return true
+		})
+	}
+	c.Check(shapeOK, "R-C01-2", s.cons+"|loop order", pos(c, s.outer.stmt), "loops over the rules then the rule's paths in index order, loop variables untouched", shapeWhy)
 
 	// ---- R-C01-4: the table at post-loop exits
 	seen := map[string]int{}
@@ -218,10 +170,10 @@ func c01Search(c *core.Ctx, s *searchInfo) {
 		if ex.Kind != flow.ExitReturn || ex.Return == nil || ex.State.Is(evHit, flow.True) {
 			continue
 		}
-		if contains(s.outer, ex.Return) || s.successReturn(ex.Return) {
+		st := ex.State
+		if s.outer.current(st) || s.successReturn(ex) {
 			continue
 		}
-		st := ex.State
 		code := s.returnedCode(ex)
 		if code == "403" {
 			continue // IP denial before the loops (C05)
@@ -233,14 +185,14 @@ func c01Search(c *core.Ctx, s *searchInfo) {
 			want = "405"
 		}
 		if code == "" {
-			c.Undecide("R-C01-4", s.cons+"|precedence table", pos(c, ex.Return), "cannot resolve the status of the returned route")
+			c.Undecide("R-C01-4", s.cons+"|precedence table", pos(c, ex.Ret()), "cannot resolve the status of the returned route")
 			tableOK = false
-			continue
+			break
 		}
 		seen[want]++
 		if code != want {
 			tableOK = false
-			c.Violate("R-C01-4", s.cons+"|precedence table", pos(c, ex.Return),
+			c.Violate("R-C01-4", s.cons+"|precedence table", pos(c, ex.Ret()),
 				sprintf("the search answers %s where the property demands %s (header mismatch seen: %v, method mismatch seen: %v)", code, want, st.Is(evHdrMis, flow.True), st.Is(evMethMis, flow.True)), witness(st)...)
 			break
 		}
@@ -249,27 +201,21 @@ func c01Search(c *core.Ctx, s *searchInfo) {
 		if seen["400"] == 0 || seen["405"] == 0 || seen["404"] == 0 {
 			c.Errorf("R-C01-4: vacuity guard: the post-loop exits do not cover all of 400/405/404 (%v)", seen)
 		} else {
-			c.Discharge("R-C01-4", s.cons+"|precedence table", pos(c, s.outer), sprintf("exit states per expected status %v all return the expected route", seen))
+			c.Discharge("R-C01-4", s.cons+"|precedence table", pos(c, s.outer.stmt), sprintf("exit states per expected status %v all return the expected route", seen))
 		}
 	}
+	_ = f
 }
 
-// dispatch calls in serveHTTP: handler.Handle(ctx) / globalFilter.Handle(ctx, handler)
-func c01DispatchCalls(f *flow.Func) []*ast.CallExpr {
-	var out []*ast.CallExpr
-	for _, call := range calls(f.Body, false) {
-		if ifaceMethodCall(f, call, "pkg/context", "Handler", "Handle") || calleeIs(f, call, "(*pkg/object/globalfilter.GlobalFilter).Handle") {
-			out = append(out, call)
-		}
-	}
-	return out
-}
-
-// serveInfo is the shared analysis of muxInstance.serveHTTP (C01, C07).
+// serveInfo is the shared analysis of the instance's request handler (serveHTTP and the
+// same-package helpers it is split into), used by C01, C05 and C07.
 type serveInfo struct {
 	f          *flow.Func
 	cons       string
 	res        *flow.Result
+	ro         *muxRoles
+	vf         *muxFlow
+	fns        []*flow.Func
 	dispatch   []*ast.CallExpr
 	search     *ast.CallExpr
 	routeVar   *ast.Ident
@@ -279,57 +225,202 @@ type serveInfo struct {
 	fetch      *ast.CallExpr
 	errVar     *ast.Ident
 	fails      []*ast.CallExpr
+	failCode   map[*ast.CallExpr]ast.Expr
+	opaque     []types.Object
+
+	routeAliases []*ast.Ident
 }
 
 const evRewritten = "ev:rewritten"
 
+// isRouteVar: the object is the variable holding the search result.
+func (s *serveInfo) isRouteVar(o types.Object) bool {
+	return o != nil && (s.f.Info.Defs[s.routeVar] == o || s.f.Info.Uses[s.routeVar] == o)
+}
+
+func (s *serveInfo) codeKey() string {
+	return "eq:" + s.f.Render(s.routeVar) + "." + s.ro.codeF.Name() + "==0"
+}
+
+// codeZero reports what st knows about "the route found has code 0", asked about the variable
+// holding the search result and about the parameters / locals that alias it (a test moved into a
+// bool helper such as rt.failed() is learned in the helper's vocabulary).
+func (s *serveInfo) codeZero(st *flow.State) flow.Val {
+	if v := st.Get(s.codeKey()); v != flow.Unknown {
+		return v
+	}
+	for _, id := range s.routeAliases {
+		if v := st.Get("eq:" + s.f.Render(id) + "." + s.ro.codeF.Name() + "==0"); v != flow.Unknown {
+			return v
+		}
+	}
+	return flow.Unknown
+}
+
+func isDispatchCall(g *flow.Func, call *ast.CallExpr) bool {
+	return ifaceMethodCall(g, call, "pkg/context", "Handler", "Handle") || calleeIs(g, call, "(*pkg/object/globalfilter.GlobalFilter).Handle")
+}
+
+// muxServeFn resolves the instance's request handler: the method of the instance type that
+// mux.ServeHTTP forwards to.
+func muxServeFn(c *core.Ctx, ro *muxRoles, rule string) *flow.Func {
+	entry := fnOpt(c, hs, "mux", "ServeHTTP")
+	var cands []*flow.Func
+	if entry != nil {
+		for _, call := range calls(entry.Body, true) {
+			fo, ok := entry.Callee(call).(*types.Func)
+			if !ok || fo.Pkg() != entry.Pkg.Types || !muxSameNamed(muxRecvNamed(fo), ro.instT) {
+				continue
+			}
+			if fd := declOf(entry.Pkg, fo); fd != nil {
+				cands = append(cands, flow.NewFunc(entry.Pkg, fd))
+			}
+		}
+	}
+	if len(cands) == 1 {
+		c.Count("functions_analysed", 1)
+		return cands[0]
+	}
+	if f := fnOpt(c, hs, ro.instT.Obj().Name(), "serveHTTP"); f != nil {
+		return f
+	}
+	c.Errorf("%s: anchor: cannot resolve the instance's request handler (the %s method mux.ServeHTTP forwards to; %d candidates)", rule, ro.instT.Obj().Name(), len(cands))
+	return nil
+}
+
 func analyzeServe(c *core.Ctx, rule string) *serveInfo {
-	f := fn(c, hs, "muxInstance", "serveHTTP")
+	ro := muxRolesOf(c, rule)
+	if ro == nil {
+		return nil
+	}
+	f := muxServeFn(c, ro, rule)
 	if f == nil {
 		return nil
 	}
-	s := &serveInfo{f: f, cons: fname(hs, "muxInstance", "serveHTTP")}
-	s.dispatch = c01DispatchCalls(f)
-	for _, call := range calls(f.Body, false) {
+	s := &serveInfo{f: f, ro: ro, cons: muxFuncConstruct(f), failCode: map[*ast.CallExpr]ast.Expr{}}
+	searchFn := muxSearchFn(c, ro, rule)
+	if searchFn == nil {
+		return nil
+	}
+	searchObj := muxFuncObj(searchFn)
+
+	// roles of the same-package callees
+	all := reach(f, 4)
+	kind := map[types.Object]string{}
+	intIdx := map[types.Object]int{}
+	for _, g := range all[1:] {
+		fo := muxFuncObj(g)
+		if fo == nil {
+			continue
+		}
+		sig := fo.Type().(*types.Signature)
 		switch {
-		case calleeIs(f, call, "(*"+hs+".muxInstance).search"):
-			s.search = call
-		case ifaceMethodCall(f, call, "pkg/context", "MuxMapper", "GetHandler"):
-			s.getHandler = call
-		case calleeIs(f, call, "(*"+hs+".MuxPath).rewrite"):
-			s.rewrite = append(s.rewrite, call)
-		case calleeIs(f, call, "(*pkg/protocols/httpprot.Request).FetchPayload"):
-			s.fetch = call
-		case calleeIs(f, call, hs+".buildFailureResponse"):
-			s.fails = append(s.fails, call)
+		case fo == searchObj:
+			kind[fo] = "search"
+		case muxSameNamed(muxRecvNamed(fo), ro.pathT) && sig.Results().Len() == 0 && sig.Params().Len() == 1 && muxIsPtrTo(sig.Params().At(0).Type(), ro.requestT) &&
+			muxRequestMethodUsed(g, "SetPath"):
+			kind[fo] = "rewrite"
+		case muxRecvNamed(fo) == nil && muxOwnCalls(g, func(call *ast.CallExpr) bool {
+			return calleeIs(g, call, "(*pkg/protocols/httpprot.Response).SetStatusCode")
+		}):
+			for i := 0; i < sig.Params().Len(); i++ {
+				if b, ok := sig.Params().At(i).Type().Underlying().(*types.Basic); ok && b.Info()&types.IsInteger != 0 {
+					kind[fo] = "fail"
+					intIdx[fo] = i
+				}
+			}
+		}
+	}
+	isRole := func(g *flow.Func, call *ast.CallExpr) bool {
+		if fo, ok := g.Callee(call).(*types.Func); ok && kind[fo.Origin()] != "" {
+			return true
+		}
+		return isDispatchCall(g, call) || ifaceMethodCall(g, call, "pkg/context", "MuxMapper", "GetHandler") || calleeIs(g, call, "(*pkg/protocols/httpprot.Request).FetchPayload")
+	}
+	opaque := map[types.Object]bool{}
+	for _, g := range all[1:] {
+		fo := muxFuncObj(g)
+		if fo == nil {
+			continue
+		}
+		// helpers that neither contain one of the role calls nor speak about the route found
+		// (predicates such as rt.failed()) stay uninterpreted
+		sig := fo.Type().(*types.Signature)
+		aboutRoute := sig.Recv() != nil && muxSameNamed(muxDerefNamed(sig.Recv().Type()), ro.routeT)
+		for i := 0; i < sig.Params().Len(); i++ {
+			if muxSameNamed(muxDerefNamed(sig.Params().At(i).Type()), ro.routeT) {
+				aboutRoute = true
+			}
+		}
+		if kind[fo] != "" || (!muxReachCalls(g, 3, isRole) && !aboutRoute) {
+			opaque[fo] = true
+		}
+	}
+	s.opaque = muxObjList(opaque)
+	s.fns = muxReach(f, 4, opaque)
+	s.vf = newMuxFlow(s.fns)
+	for _, g := range s.fns {
+		for _, call := range calls(g.Body, true) {
+			fo, _ := g.Callee(call).(*types.Func)
+			if fo != nil {
+				fo = fo.Origin()
+			}
+			switch {
+			case kind[fo] == "search":
+				s.search = call
+			case kind[fo] == "rewrite":
+				s.rewrite = append(s.rewrite, call)
+			case kind[fo] == "fail":
+				s.fails = append(s.fails, call)
+				if i := intIdx[fo]; i < len(call.Args) {
+					s.failCode[call] = call.Args[i]
+				}
+			case ifaceMethodCall(g, call, "pkg/context", "MuxMapper", "GetHandler"):
+				s.getHandler = call
+			case calleeIs(g, call, "(*pkg/protocols/httpprot.Request).FetchPayload"):
+				s.fetch = call
+			case isDispatchCall(g, call):
+				s.dispatch = append(s.dispatch, call)
+			}
 		}
 	}
 	if s.search == nil || s.getHandler == nil || s.fetch == nil || len(s.dispatch) == 0 {
-		c.Errorf("%s: anchor: serveHTTP lacks search/GetHandler/FetchPayload/dispatch calls (search=%v getHandler=%v fetch=%v dispatch=%d)", rule, s.search != nil, s.getHandler != nil, s.fetch != nil, len(s.dispatch))
+		c.Errorf("%s: anchor: the request handler %s (helpers included) lacks search/GetHandler/FetchPayload/dispatch calls (search=%v getHandler=%v fetch=%v dispatch=%d)", rule, s.cons, s.search != nil, s.getHandler != nil, s.fetch != nil, len(s.dispatch))
 		return nil
 	}
-	ast.Inspect(f.Body, func(n ast.Node) bool {
-		as, ok := n.(*ast.AssignStmt)
-		if !ok || len(as.Rhs) != 1 {
-			return true
-		}
-		switch as.Rhs[0] {
-		case ast.Expr(s.search):
-			s.routeVar, _ = as.Lhs[0].(*ast.Ident)
-		case ast.Expr(s.getHandler):
-			if len(as.Lhs) == 2 {
-				s.okVar, _ = as.Lhs[1].(*ast.Ident)
+	for _, g := range s.fns {
+		ast.Inspect(g.Body, func(n ast.Node) bool {
+			as, ok := n.(*ast.AssignStmt)
+			if !ok || len(as.Rhs) != 1 {
+				return true
 			}
-		case ast.Expr(s.fetch):
-			s.errVar, _ = as.Lhs[0].(*ast.Ident)
-		}
-		return true
-	})
+			switch ast.Unparen(as.Rhs[0]) {
+			case ast.Expr(s.search):
+				s.routeVar, _ = as.Lhs[0].(*ast.Ident)
+			case ast.Expr(s.getHandler):
+				if len(as.Lhs) == 2 {
+					s.okVar, _ = as.Lhs[1].(*ast.Ident)
+				}
+			case ast.Expr(s.fetch):
+				s.errVar, _ = as.Lhs[0].(*ast.Ident)
+			}
+			return true
+		})
+	}
 	if s.routeVar == nil || s.okVar == nil || s.errVar == nil {
 		c.Errorf("%s: anchor: results of search/GetHandler/FetchPayload are not bound to variables", rule)
 		return nil
 	}
-	s.res = analyze(c, f, flow.Config{
+	s.vf.stop[s.vf.obj(s.routeVar)] = true
+	for o, id := range s.vf.ident {
+		if v, ok := o.(*types.Var); !ok || v.IsField() || !muxIsPtrTo(v.Type(), ro.routeT) || s.isRouteVar(o) {
+			continue
+		}
+		if s.vf.allPaths(id, false, s.isRouteVar) {
+			s.routeAliases = append(s.routeAliases, id)
+		}
+	}
+	s.res = muxAnalyzeInl(c, f, flow.Config{
 		NoHavoc: true,
 		OnCall: func(st *flow.State, call *ast.CallExpr, callee types.Object, deferred bool) {
 			for _, r := range s.rewrite {
@@ -338,14 +429,19 @@ func analyzeServe(c *core.Ctx, rule string) *serveInfo {
 				}
 			}
 			for _, fl := range s.fails {
-				if call == fl && len(call.Args) == 2 {
-					k := "ev:fail:" + f.Render(call.Args[1])
-					if tv, ok := f.Info.Types[call.Args[1]]; ok && tv.Value != nil {
+				if call != fl {
+					continue
+				}
+				if code := s.failCode[call]; code != nil {
+					k := "ev:fail:" + f.Render(code)
+					if tv, ok := f.Info.Types[code]; ok && tv.Value != nil {
 						k = "ev:fail:" + tv.Value.ExactString()
+					} else if s.vf.allPaths(code, false, s.isRouteVar, s.ro.codeF) {
+						k = "ev:fail:route-code"
 					}
 					st.Set(k, flow.True)
-					st.Set("ev:failed", flow.True)
 				}
+				st.Set("ev:failed", flow.True)
 			}
 			for _, d := range s.dispatch {
 				if call == d {
@@ -353,7 +449,7 @@ func analyzeServe(c *core.Ctx, rule string) *serveInfo {
 				}
 			}
 		},
-	})
+	}, s.opaque...)
 	if s.res == nil {
 		return nil
 	}
@@ -366,7 +462,7 @@ func c01Serve(c *core.Ctx) {
 		return
 	}
 	f := s.f
-	codeKey := "eq:" + f.Render(s.routeVar) + ".code==0"
+	codeKey := s.codeKey()
 	okKey := f.VarKey(s.okVar)
 	// dispatch sites
 	for _, d := range s.dispatch {
@@ -375,8 +471,8 @@ func c01Serve(c *core.Ctx) {
 		why := ""
 		for _, st := range states {
 			switch {
-			case !st.Is(codeKey, flow.True):
-				bad, why = st, "the pipeline is invoked although the search returned a failure route (4xx) — fact "+codeKey+" is "+st.Get(codeKey).String()
+			case s.codeZero(st) != flow.True:
+				bad, why = st, "the pipeline is invoked although the search returned a failure route (4xx) — fact "+codeKey+" is "+s.codeZero(st).String()
 			case !st.Is(okKey, flow.True):
 				bad, why = st, "the pipeline is invoked although the backend lookup did not succeed (should be 503)"
 			case !st.Is(evRewritten, flow.True):
@@ -395,10 +491,14 @@ func c01Serve(c *core.Ctx) {
 	// backend argument: route.path.backend
 	argOK := false
 	if len(s.getHandler.Args) == 1 {
-		if sel, ok := ast.Unparen(s.getHandler.Args[0]).(*ast.SelectorExpr); ok && sel.Sel.Name == "backend" {
-			if sel2, ok := ast.Unparen(sel.X).(*ast.SelectorExpr); ok && sel2.Sel.Name == "path" {
-				if id, ok := ast.Unparen(sel2.X).(*ast.Ident); ok && f.Info.Uses[id] == f.Info.Defs[s.routeVar] {
-					argOK = true
+		if s.ro.backendF != nil {
+			argOK = s.vf.allPaths(s.getHandler.Args[0], false, s.isRouteVar, s.ro.rpathF, s.ro.backendF)
+		} else {
+			vs := s.vf.flat(s.getHandler.Args[0])
+			argOK = len(vs) > 0
+			for _, v := range vs {
+				if v.root == nil || !s.isRouteVar(v.root) || len(v.fields) != 2 || v.fields[0] != s.ro.rpathF || v.fields[1].Name() != "backend" {
+					argOK = false
 				}
 			}
 		}
@@ -408,11 +508,7 @@ func c01Serve(c *core.Ctx) {
 	for _, r := range s.rewrite {
 		rok := false
 		if sel, ok := ast.Unparen(r.Fun).(*ast.SelectorExpr); ok {
-			if sel2, ok := ast.Unparen(sel.X).(*ast.SelectorExpr); ok && sel2.Sel.Name == "path" {
-				if id, ok := ast.Unparen(sel2.X).(*ast.Ident); ok && f.Info.Uses[id] == f.Info.Defs[s.routeVar] {
-					rok = true
-				}
-			}
+			rok = s.vf.allPaths(sel.X, false, s.isRouteVar, s.ro.rpathF)
 		}
 		c.Check(rok, "R-C01-5", s.cons+"|rewrite by the matched path", pos(c, r), "route.path.rewrite(req)", "the rewrite applied is not the matched path entry's")
 	}
@@ -427,8 +523,8 @@ func c01Serve(c *core.Ctx) {
 		st := ex.State
 		n++
 		switch {
-		case st.Is(codeKey, flow.False):
-			if !st.Is("ev:fail:"+f.Render(s.routeVar)+".code", flow.True) || st.Is("ev:dispatched", flow.True) {
+		case s.codeZero(st) == flow.False:
+			if !st.Is("ev:fail:route-code", flow.True) || st.Is("ev:dispatched", flow.True) {
 				bad, why = st, "a failure route does not end in a failure response carrying the route's status code (or the pipeline ran)"
 			}
 		case st.Is(okKey, flow.False):
@@ -450,12 +546,38 @@ func recvType(f *flow.Func, call *ast.CallExpr) string {
 	return methodName(call)
 }
 
+// muxMatcherFn resolves a matcher by role: the bool method of the rule / path type taking the
+// request and reading the given request attribute(s).
+func muxMatcherFn(c *core.Ctx, ro *muxRoles, recv *types.Named, prefer string, attrs ...string) *flow.Func {
+	g, n := muxFuncByRole(c, hs, prefer, func(g *flow.Func, fd *ast.FuncDecl) bool {
+		fo := muxFuncObj(g)
+		if fo == nil || !muxSameNamed(muxRecvNamed(fo), recv) {
+			return false
+		}
+		sig := fo.Type().(*types.Signature)
+		if sig.Results().Len() != 1 || !types.Identical(sig.Results().At(0).Type(), types.Typ[types.Bool]) || sig.Params().Len() != 1 || !muxIsPtrTo(sig.Params().At(0).Type(), ro.requestT) {
+			return false
+		}
+		return muxRequestMethodUsed(g, attrs...)
+	})
+	if g == nil {
+		c.Errorf("anchor: cannot resolve the %s matcher of %s (bool method taking the request and reading %v; %d candidates)", prefer, recv.Obj().Name(), attrs, n)
+		return nil
+	}
+	c.Count("functions_analysed", 1)
+	return g
+}
+
 func c01Host(c *core.Ctx) {
-	f := fn(c, hs, "muxRule", "match")
+	ro := muxRolesOf(c, "R-C01-6")
+	if ro == nil {
+		return
+	}
+	f := muxMatcherFn(c, ro, ro.ruleT, "match", "Host")
 	if f == nil {
 		return
 	}
-	cons := fname(hs, "muxRule", "match")
+	cons := muxFuncConstruct(f)
 	var split *ast.CallExpr
 	for _, call := range calls(f.Body, false) {
 		if calleeFull(f, call) == "net.SplitHostPort" {
@@ -463,6 +585,10 @@ func c01Host(c *core.Ctx) {
 		}
 	}
 	if split == nil {
+		if muxReachCalls(f, 2, func(h *flow.Func, call *ast.CallExpr) bool { return calleeFull(h, call) == "net.SplitHostPort" }) {
+			c.Undecide("R-C01-6", cons+"|port stripped via net.SplitHostPort", pos(c, f.Body), "the host is split in a helper of the matcher: the flow of the stripped host into the comparisons is not followed")
+			return
+		}
 		c.Violate("R-C01-6", cons+"|port stripped via net.SplitHostPort", pos(c, f.Body), "the host matcher does not use net.SplitHostPort: bracketed IPv6 literals and ports are not separated correctly (\"[::1]:8080\" must compare as \"::1\")")
 		return
 	}
